@@ -10,6 +10,7 @@ import (
 	"context"
 	"errors"
 	"fmt"
+	"strings"
 	"testing"
 )
 
@@ -88,7 +89,69 @@ func TestVerifReplayC10(t *testing.T) {
 			}
 		}
 	}
-	fmt.Printf("REPLAY-NOT-REPRODUCED bounded search: writer failing at each of %d byte positions x 3, cancelled context, follow-up renders\n", want.Len()+1)
+	// single faults (the writer recovers afterwards) on a document with a string larger than the 4KB buffer:
+	// an error, a short write without error, a zero write without error, at offsets across the whole document
+	big := BasicTemplate(strings.Repeat("x", 5000))
+	var wantBig bytes.Buffer
+	if err := big.Render(ctx, &wantBig); err != nil {
+		fmt.Println("REPLAY-CONFIRMED reference render of a 5000 byte string failed:", err)
+		return
+	}
+	faults := 0
+	for mode := 0; mode < 3; mode++ {
+		for at := 0; at < wantBig.Len(); at += 1 + at/8 {
+			w := &verifOnce{at: at, mode: mode}
+			err := big.Render(ctx, w)
+			faults++
+			if !w.fired {
+				continue
+			}
+			if err == nil {
+				fmt.Printf("REPLAY-CONFIRMED single fault (mode %s) at byte %d of a %d byte document: Render returned nil, the writer holds %d bytes\n", verifModes[mode], at, wantBig.Len(), w.got.Len())
+				return
+			}
+			if !bytes.HasPrefix(wantBig.Bytes(), w.got.Bytes()) {
+				fmt.Printf("REPLAY-CONFIRMED single fault (mode %s) at byte %d of a %d byte document (5000 byte string): the writer received %d bytes that are not a prefix of the document (err=%v); first difference at byte %d\n", verifModes[mode], at, wantBig.Len(), w.got.Len(), err, verifFirstDiff(wantBig.Bytes(), w.got.Bytes()))
+				return
+			}
+		}
+	}
+	fmt.Printf("REPLAY-NOT-REPRODUCED bounded search: writer failing at each of %d byte positions x 3, cancelled context, follow-up renders, %d single faults on a document with a 5000 byte string\n", want.Len()+1, faults)
+}
+
+var verifModes = []string{"error", "short write, nil error", "zero write, nil error"}
+
+// one fault at byte offset 'at' of the stream, then healthy again
+type verifOnce struct {
+	at, mode int
+	fired    bool
+	got      bytes.Buffer
+}
+
+func (w *verifOnce) Write(p []byte) (int, error) {
+	if w.fired || w.got.Len()+len(p) <= w.at {
+		return w.got.Write(p)
+	}
+	w.fired = true
+	n := w.at - w.got.Len()
+	switch w.mode {
+	case 0:
+		w.got.Write(p[:n])
+		return n, verifErr
+	case 1:
+		w.got.Write(p[:n])
+		return n, nil
+	}
+	return 0, nil
+}
+
+func verifFirstDiff(a, b []byte) int {
+	for i := 0; i < len(a) && i < len(b); i++ {
+		if a[i] != b[i] {
+			return i
+		}
+	}
+	return min(len(a), len(b))
 }
 `
 
